@@ -89,8 +89,19 @@ Definition spends_other (st : xstate) (shs : list N) (n : node) (t : tx) : bool 
                      | None => false
                      end) (t_ins t).
 
+(* Repaired once more (f_removable_debit): the owner of a spent output is read from the credit rows the
+   store itself holds for that output (bucket "c": every row of the previous transaction with that
+   output index), not from the node.  The code reads them after removeRelevantCredit has deleted rows
+   of the wallet being removed; those rows carry one of [shs] and do not count either way, so the
+   credits before the round are used here. *)
+Definition spends_other_db (st : xstate) (shs : list N) (t : tx) : bool :=
+  negb (t_cb t) &&
+  existsb (fun op => existsb (fun c => (c_tx c =? fst op)%N && (c_vout c =? snd op)%N &&
+                                       negb (memN (c_sh c) shs) && is_some (key_owner st (c_sh c)))
+                             (credits (x_w st))) (t_ins t).
+
 Definition removable (fx : fixes) (st : xstate) (shs : list N) (n : node) (t : tx) : bool :=
-  negb (f_removable fx && spends_other st shs n t) &&
+  negb (f_removable fx && (if f_removable_debit fx then spends_other_db st shs t else spends_other st shs n t)) &&
   forallb (fun o => match o_class o with
                     | CUnsupported => true
                     | _ => memN (o_sh o) shs || negb (is_some (key_owner st (o_sh o)))
